@@ -404,6 +404,52 @@ def template_obligations(prop="C12"):
     return out
 
 
+def run_time_values_obligation(prop="C12"):
+    """the time of the run is the one input-independent value FORD can print: the templates print `creation_date` only under `print_creation_date` (off by default)"""
+    import os
+    out = []
+    try:
+        import jinja2, jinja2.nodes as N
+        env = jinja2.Environment()
+        tdir = os.path.join(os.path.dirname(loader.module_path("ford.output")), "templates")
+        k = 0
+        for name in sorted(os.listdir(tdir)):
+            if not name.endswith(".html"):
+                continue
+            tree = env.parse(open(os.path.join(tdir, name), encoding="utf-8").read())
+
+            def visit(node, guards):
+                nonlocal k
+                if isinstance(node, N.If):
+                    names = {x.name for x in node.test.find_all(N.Name)} | ({node.test.name} if isinstance(node.test, N.Name) else set())
+                    for b in node.body:
+                        visit(b, guards | names)
+                    for e in node.elif_:
+                        visit(e, guards)
+                    for b in node.else_:
+                        visit(b, guards)
+                    return
+                if isinstance(node, N.Output):
+                    for ch in node.nodes:
+                        if not isinstance(ch, N.TemplateData) and any(x.name == "creation_date" for x in ([ch] if isinstance(ch, N.Name) else []) + list(ch.find_all(N.Name))):
+                            ok = "print_creation_date" in guards
+                            r = OR(id=f"{prop}.S.templates.{name}.L{ch.lineno}.creation_date_only_on_request", status=PROVED if ok else REFUTED, kind="S", role="pre", backend="jinja2-ast",
+                                   target=f"ford/templates/{name}", desc=f"`creation_date` (line {ch.lineno}) is printed under `{{% if print_creation_date %}}` (enclosing tests name {sorted(guards)})")
+                            if not ok:
+                                r.witness = {"template": name, "line": ch.lineno, "guards": sorted(guards)}
+                                r.detail = "the time of the run is written into every page although it was not asked for: two runs on the same inputs differ"
+                            out.append(r)
+                            k += 1
+                for c in node.iter_child_nodes():
+                    visit(c, guards)
+            visit(tree, frozenset())
+        if k == 0:
+            out.append(OR(id=f"{prop}.S.templates.creation_date.anchor", status=UNKNOWN, kind="S", target="ford/templates", detail="no template prints creation_date"))
+    except Exception as e:
+        out.append(OR(id=f"{prop}.S.templates.creation_date", status=UNKNOWN, kind="S", target="ford/templates", detail=f"{type(e).__name__}: {e}"))
+    return out
+
+
 def serial_parallel_agreement(prop="C12"):
     """GraphManager.output_graphs has one branch for `parallel: 0` and one that hands the graphs to worker processes.  The output must not depend on the number of workers:
     for every collection the two branches save the same graphs.  Both sides are read from the AST: (collection, graph attribute) pairs of `x.<g>graph.create_svg(...)` in the
